@@ -1756,6 +1756,109 @@ def gen_resend(draw):
             "cmds": cmds, "steps": steps, "faults": faults}
 
 
+# ============================================================ leg cmd-faults
+# Everything the driver writes while a command goes wrong: the answers of the
+# device are scripted (acknowledge, response, silence, noise), the driver
+# raises or returns as it likes, and EVERY write that reached the transport is
+# judged - the command frame, and whatever the driver writes to cancel the
+# command (the ACK frame, inside the CCID envelope on the ACR122).
+def _fault_reads(chip, code, script, seedkey):
+    out = []
+    timeout = IOError(errno.ETIMEDOUT, os.strerror(errno.ETIMEDOUT))
+    for i, kind in enumerate(script):
+        if kind == "timeout":
+            out.append(timeout)
+        elif kind == "eio":
+            out.append(IOError(errno.EIO, os.strerror(errno.EIO)))
+        elif kind == "ack":
+            out.append(ref.ccid_build_rsp(b"") if chip == "acr122"
+                       else ref.ACK)
+        elif kind == "rsp":
+            out.append(base_response(chip, code, b"\x00", False))
+        elif kind == "error":
+            out.append(ref.ccid_build_rsp(b"\x63\x00") if chip == "acr122"
+                       else ref.ERROR)
+        elif kind == "noise":
+            out.append(det_bytes(3 + 5 * i, "noise", seedkey, i))
+        elif kind == "cut":
+            r = base_response(chip, code, b"\x00", False)
+            out.append(r[:len(r) // 2])
+        else:
+            raise HarnessError("unknown read kind %r" % kind)
+    return out
+
+
+def run_cmd_faults(case, ctx):
+    chip, code = case["chip"], case["code"]
+    payload = det_bytes(case["len"], "cmd-faults", chip, code)
+    ctx.set_class("%s/cmd-faults" % chip)
+    cs = chipset_for(chip)
+    link = ScriptLink(_fault_reads(chip, code, case["script"], case["len"]))
+    cs.transport = link
+    simchip.CLOCK.reset()
+    try:
+        cs.command(code, bytearray(payload), case["timeout"])
+        ctx.label("returned")
+    except IOError as e:
+        ctx.label("IOError:%s" % errno.errorcode.get(e.errno, e.errno))
+    except nfc.clf.pn53x.Chipset.Error:
+        ctx.label("chip-error")
+    except Exception as e:
+        raise unexpected(e, detail="%s command(%#x, %d bytes), reads %r"
+                         % (chip, code, len(payload), case["script"]))
+    if len(link.writes) >= 2:
+        ctx.nontrivial()
+        ctx.label("writes:%d" % min(len(link.writes), 4))
+    seen_cmd = 0
+    for w in link.writes:
+        where = "%s code %#04x len %d reads %r: write %s" % (
+            chip, code, len(payload), case["script"], w.hex()[:80])
+        try:
+            if chip == "acr122":
+                body = ref.ccid_parse_host(w)
+                if body == ref.ACK:
+                    continue
+                c, p = ref.acr_parse_command(w)
+            else:
+                if chip.startswith("arygon"):
+                    if w[:1] != b"2":
+                        raise ref.RefReject("arygon-prefix", w[:1].hex())
+                    w = w[1:]
+                if w == ref.ACK:
+                    continue
+                c, p, fmt = ref.parse_command(w)
+        except ref.RefReject as r:
+            raise Violation("cmd-frame-malformed:" + r.reason,
+                            "%s: %s %s" % (where, r.reason, r.detail))
+        seen_cmd += 1
+        if c != code or p != payload:
+            raise Violation("cmd-frame-content", "%s decodes to code %#x, "
+                            "%d bytes" % (where, c, len(p)))
+    if seen_cmd != 1:
+        raise Violation("cmd-write-count", "%s code %#x: the command frame "
+                        "was written %d times (%d writes)"
+                        % (chip, code, seen_cmd, len(link.writes)))
+
+
+READ_KINDS = ["timeout", "timeout", "ack", "ack", "rsp", "error", "noise",
+              "cut", "eio"]
+
+
+@st.composite
+def cmd_faults_case(draw):
+    chip = draw(st.sampled_from(RSP_CHIPS))
+    code = draw(st.sampled_from(CODES[chip]))
+    first = draw(st.sampled_from(["ack", "ack", "ack", "timeout", "noise",
+                                  "rsp"]))
+    script = [first] + draw(st.lists(st.sampled_from(READ_KINDS),
+                                     max_size=3))
+    return {"chip": chip, "code": code,
+            "len": draw(st.sampled_from([0, 1, 2, 16, 250])),
+            "timeout": draw(st.sampled_from([0.1, 0.25, 1.0])),
+            "script": script}
+
+
+
 LEGS = [
     Leg("anchors", run=run_anchor, enum=enum_anchors, exhaustive=True,
         rule="literal frames of tests/base_clf_pn53x.py, test_clf_acr122.py, "
@@ -1770,6 +1873,19 @@ LEGS = [
              "content (+ all-00/all-FF content at every 7th and at boundary "
              "lengths); non-trivial = length within 2 of the 254/255 format "
              "switch or of the maximum."),
+    Leg("cmd-faults", run=run_cmd_faults,
+        gen=lambda tier: cmd_faults_case(), quick=1500, thorough=30000,
+        shards_quick=8, shards_thorough=16, nt_floor=0.2,
+        rule="7 PN53x-family chipset classes and the ACR122: one command "
+             "(any code of the CMD table, payload 0/1/2/16/250 octets, "
+             "timeout 0.1/0.25/1 s) against a scripted device that answers "
+             "with 1-4 of {acknowledge, response, error frame, noise, a cut "
+             "response, silence, input/output error}.  Every write that "
+             "reached the transport is judged: exactly one well-formed "
+             "command frame with the given code and payload, anything else "
+             "must be the ACK frame (on the ACR122 inside a well-formed CCID "
+             "PC_to_RDR_XfrBlock message).  Non-trivial = the driver wrote "
+             "more than the command frame (a cancel)."),
     Leg("rsp-mutations", run=run_response, enum=enum_rsp_mutations,
         exhaustive=True, shards_quick=8, shards_thorough=16,
         rule="per base response frame (7 chipset classes x 3 codes x payload "
